@@ -51,6 +51,7 @@ class Check:
         self.discharged = 0
         self.vacuity = []
         self.extra = {}
+        self.tt_decisions = 0
         self.known = [k for k in load_known() if k.get("property") == pid]
         self.exhaustive = None
 
@@ -79,6 +80,7 @@ class Check:
             self.verdicts[k] = self.verdicts.get(k, 0) + v
         self.obligations += res.obligations
         self.discharged += res.discharged
+        self.tt_decisions += getattr(res, "tt_decisions", 0)
         for e in res.errors:
             self.harness_error("%s: %s" % (part, e))
         for leaf in res.leaves:
@@ -193,6 +195,7 @@ class Check:
             "discharged": self.discharged,
             "queries_by_verdict": self.verdicts,
             "solver_seconds": round(self.solver_s, 2),
+            "branch_decisions_by_exact_truth_table": self.tt_decisions,
             "functions_encoded": self.functions,
             "bounds": self.bounds,
             "outside_the_claim": self.outside,
